@@ -1,5 +1,5 @@
 # What each claimed check asserts about itself (copied into MANIFEST.json by gen_manifest.py).
-HOOK_COMMITS = ["60bdaa0", "64099f4", "7349612"]
+HOOK_COMMITS = ["60bdaa0", "64099f4", "7349612", "942f497"]
 NOT_APPLICABLE = {}
 CLAIMS = {
     "C20": {
@@ -353,3 +353,6 @@ CLAIMS["C14"]["note"] += (" A peer whose int tag values sum outside the int rang
 CLAIMS["C13"]["text"] += (" Service lifecycle and address-book capacity are generated dimensions: the identify service may be closed (IDService.Close) at any point of the history while connections and the peerstore live on, and in 40 % of the cases the in-memory address book runs at or near a small global limit of unconnected addresses (WithMaxAddresses 4/16/64). "
     "In both, the peer's addresses must still lose the connected lifetime after the last connection closes, and the per-peer caps must hold across pushes.")
 CLAIMS["C13"]["note"] += (" At its global limit the address book may drop or refuse addresses; the oracle only forbids keeping them at the connected lifetime without a connection. After Close the harness keeps using IdentifyWait and the installed stream handlers, as a host's other components may.")
+
+CLAIMS["C10"]["text"] += (" Outbound candidates include circuit addresses (<relay IP or DNS name>/<transport>/p2p/<relay>/p2p-circuit, handled by a scripted proxy transport) next to direct ones: while the relay's IP matches an address/subnet rule, the swarm never hands such an address to the relay transport, never admits a connection made through it, and Network.CanDial reports it undialable; InterceptAddrDial refuses it.")
+CLAIMS["C10"]["note"] += (" A circuit address is judged by the relay's IP only as an outbound candidate (the dial opens or re-uses a connection with that IP); as the remote address of an inbound relayed connection no verdict is demanded. The real relay client transport is not driven.")
